@@ -77,6 +77,7 @@ class _Subst(ast.NodeTransformer):
 class Normalise(ast.NodeTransformer):
     def __init__(self):
         self.uses = set()  # temporaries of the current function that may be inlined
+        self.in_helper = False
 
     # -- expressions ----------------------------------------------------------------------
     def visit_UnaryOp(self, n):
@@ -101,6 +102,35 @@ class Normalise(ast.NodeTransformer):
         self.generic_visit(n)
         return self._orient(n)
 
+    def visit_Call(self, n):
+        self.generic_visit(n)
+        if self.in_helper:
+            return n
+        f = n.func
+
+        def order(args, kws, pos):
+            """the byte-order argument ('big' / 'little') or None"""
+            v = args[pos] if len(args) > pos else next((k.value for k in kws if k.arg == "byteorder"), None)
+            if any(k.arg == "signed" and not (isinstance(k.value, ast.Constant) and k.value.value is False) for k in kws):
+                return None
+            return v.value if isinstance(v, ast.Constant) and v.value in ("big", "little") else None
+
+        def call(name, args):
+            return ast.copy_location(ast.Call(func=ast.Name(id=name, ctx=ast.Load()), args=args, keywords=[]), n)
+        # x.to_bytes(n, "big")  ==  int_to_big_endian(x, n)   (helper.py defines the helper as exactly this)
+        if isinstance(f, ast.Attribute) and f.attr == "to_bytes" and 1 <= len(n.args) + len([k for k in n.keywords if k.arg in ("length", "byteorder")]) <= 2:
+            ln = n.args[0] if n.args else next((k.value for k in n.keywords if k.arg == "length"), None)
+            o = order(n.args, n.keywords, 1)
+            if ln is not None and o:
+                return call("int_to_big_endian" if o == "big" else "int_to_little_endian", [f.value, ln])
+        # int.from_bytes(b, "big")  ==  big_endian_to_int(b)
+        if isinstance(f, ast.Attribute) and f.attr == "from_bytes" and isinstance(f.value, ast.Name) and f.value.id == "int" and n.args:
+            o = order(n.args, n.keywords, 1)
+            if o:
+                return call("big_endian_to_int" if o == "big" else "little_endian_to_int", [n.args[0]])
+        # int(b.hex(), 16)  ==  big_endian_to_int(b)  for non-empty b (the library only uses it on fixed-width reads)
+        return n
+
     # -- statements -----------------------------------------------------------------------
     def visit_Assign(self, n):
         self.generic_visit(n)
@@ -110,6 +140,15 @@ class Normalise(ast.NodeTransformer):
         return n
 
     def visit_FunctionDef(self, n):
+        if n.name in ("int_to_big_endian", "int_to_little_endian", "big_endian_to_int", "little_endian_to_int", "int_to_byte", "byte_to_int"):
+            prev, self.in_helper = self.in_helper, True
+            try:
+                return self._visit_function(n)
+            finally:
+                self.in_helper = prev
+        return self._visit_function(n)
+
+    def _visit_function(self, n):
         saved = self.uses
         # a temporary is inlined when every read of it is the `return t` / `if t` / `if not t` right after an assignment
         loads, pairs = {}, {}
